@@ -22,8 +22,9 @@ Init ==
        /\ (op = "pop_ann" => n >= 1)
        /\ (op = "zip_ann" => n = m)
        /\ tr = "" /\ cont = "" /\ elem = "" /\ api = "" /\ mis = "" /\ twin = FALSE /\ rel = ""
-    \/ /\ kind = "bound" /\ tr \in BoundTraits /\ cont \in Containers /\ (cont = "iter" => tr = "Debug") /\ twin \in BOOLEAN
-       /\ op = "" /\ n = 3 /\ m = 0 /\ k = 0 /\ elem = "" /\ api = "" /\ mis = "" /\ rel = ""
+    \/ /\ kind = "bound" /\ tr \in BoundTraits /\ cont \in Containers /\ (cont = "iter" => tr = "Debug") /\ twin = FALSE
+       /\ elem \in BoundElems /\ (elem = "super" => Supers(tr) # {})
+       /\ op = "" /\ n = 3 /\ m = 0 /\ k = 0 /\ api = "" /\ mis = "" /\ rel = ""
     \/ /\ kind = "generic" /\ rel \in GenericRels /\ twin \in BOOLEAN
        /\ op = "" /\ n = 0 /\ m = 0 /\ k = 0 /\ tr = "" /\ cont = "" /\ elem = "" /\ api = "" /\ mis = ""
     \/ /\ kind = "trait" /\ tr \in Traits /\ cont \in Containers /\ elem \in Elems
@@ -36,7 +37,7 @@ Spec == Init /\ [][Next]_vars
 Verdict == CASE kind = "len" -> Accept(op, n, m, k)
              [] kind = "trait" -> HasContainer(tr, cont, elem)
              [] kind = "borrow" -> twin            \* the twin (reference used before the conflicting action) is accepted
-             [] kind = "bound" -> BoundOK(twin)     \* twin: the element type has the trait (and nothing else)
+             [] kind = "bound" -> BoundOK(tr, elem)  \* elem: which of the trait and its supertraits the element type has
              [] kind = "generic" -> twin           \* the declared relation is provable, the undeclared one is not
 Consistent == kind = "len" => ConsistentWithDynamic(op, n, m, k)
 \* the array has an auto trait exactly when its element type has it
